@@ -55,7 +55,8 @@ def real_run(prog, given, mode, select, entrypoint=None):
         else:
             lack = r.status.value == "failed" and isinstance(r.error, KeyError)
             out.update(outcome="accepted", status=r.status.value, lack_of_value=lack,
-                       err=(type(r.error).__name__ + ":" + str(r.error)[:120]) if r.error else "")
+                       err=(type(r.error).__name__ + ":" + str(r.error)[:120]) if r.error else "",
+                       values={k: IR.canon(v) for k, v in r.values.items()})
     out.update(calls=len(rt.log), events=len(rec.events), shutdowns=rec.shutdowns)
     return out
 
@@ -68,12 +69,29 @@ def configs(rng, thorough):
     g2 = IR.func("g", ["n", "m"], ["m"])            # same cycle parameters as f, listed in another order
     out.append((IR.prog("top", [f, g2], max_iter=6), list(IR.UNSET), "cycle-same-params-other-order", "sync"))
     out.append((IR.prog("top", [g2, f], max_iter=6), list(IR.UNSET), "cycle-same-params-other-order", "async"))
+    # two data loops that exchange no data but hand over to each other through their gates (control edges both ways):
+    # one listed entry point per loop must be accepted, the seed of either loop cannot be omitted
+    def two_loops():
+        return [IR.func("a_step", ["b"], ["a"]), IR.func("b_step", ["a"], ["b"]),
+                IR.route("gate_ab", ["b"], ["a_step", "x_step", "END"], [["a_step"], ["END"]]),
+                IR.func("x_step", ["y"], ["x"]), IR.func("y_step", ["x"], ["y"]),
+                IR.route("gate_xy", ["y"], ["x_step", "a_step", "END"], [["x_step"], ["END"]])]
+    out.append((IR.prog("top", two_loops(), max_iter=12), list(IR.UNSET), "two-loops-linked-by-gates", "sync"))
+    out.append((IR.prog("top", list(reversed(two_loops())), max_iter=12), list(IR.UNSET), "two-loops-linked-by-gates", "async"))
+    # a selection whose producer depends on another node only through an ordering signal (emit / wait_for):
+    # the emitter's own input belongs to the narrowed contract
+    def ordered():
+        E = IR.normalize_node(dict(name="E", kind="func", inputs=["x"], outputs=["e", "sig"], ndata=1))
+        W = IR.normalize_node(dict(name="W", kind="func", inputs=["y"], outputs=["w"], wait_for=["sig"]))
+        return [E, W, IR.func("K", ["z"], ["k"])]
+    out.append((IR.prog("top", ordered(), selected=["w"]), list(IR.UNSET), "dag/select-through-ordering-edge", "sync"))
+    out.append((IR.prog("top", list(reversed(ordered()))), ["w"], "dag/select-through-ordering-edge", "async"))
     tries = 0
     while len(out) < n and tries < 100000:
         tries += 1
         r = rng.random()
         if r < 0.3:
-            prog, _ = gen.random_flat(rng, n_nodes=(2, 5), cyclic=0.0, gate=0.3, multi_out=0.3, defaults=0.3, bound=0.0)
+            prog, _ = gen.random_flat(rng, n_nodes=(2, 5), cyclic=0.0, gate=0.3, multi_out=0.3, defaults=0.3, bound=0.0, emit=0.3)
             subs = list(gen.convex_subsets(prog)) if not any(x["kind"] != "func" for x in prog["nodes"]) else []
             if subs and rng.random() < 0.5:
                 prog = gen.nest(prog, rng.choice(subs), inner_bound=None)
@@ -122,6 +140,25 @@ def configs(rng, thorough):
             continue
         out.append((prog, list(sel), kind, rng.choice(["sync", "async"])))
     return out
+
+
+def cycle_members(prog, entry_node):
+    """All nodes of the strongly connected component (data edges) that contains entry_node."""
+    import networkx as nx
+    G = nx.DiGraph()
+    first = {}
+    for n in prog["nodes"]:
+        G.add_node(n["name"])
+        for o in n["outputs"]:
+            first.setdefault(o, n["name"])
+    for n in prog["nodes"]:
+        for p in n["inputs"]:
+            if p in first:
+                G.add_edge(first[p], n["name"])
+    for comp in nx.strongly_connected_components(G):
+        if entry_node in comp:
+            return comp
+    return {entry_node}
 
 
 def scc_groups(prog, entries):
@@ -180,6 +217,7 @@ def run(tier, seed):
     res, stats = specs.spec_eval(sjobs)
     ctx.add_tlc(stats)
     accept_jobs, plan = [], []
+    reported = {}
     for i, (prog, sel, kind, mode) in enumerate(cfgs):
         sp = res[i + 1]
         ctx.count()
@@ -189,6 +227,7 @@ def run(tier, seed):
             rs, g = specs.real_spec(eff_prog)
         except Exception as e:  # noqa: BLE001
             continue
+        reported[i] = rs
         wit = {"prog": prog, "select": sel, "specified": sp, "reported": rs, "kind": kind}
         if set(rs["required"]) & set(rs["optional"]) or any(set(ps) & (set(rs["required"]) | set(rs["optional"])) for ps in rs["entry"].values()):
             ctx.violation("categories-not-disjoint", wit, f"{rs}")
@@ -235,6 +274,27 @@ def run(tier, seed):
                     picks.append((sorted(given - bound), e))   # the documented way to name the entry point
         else:
             picks.append((sorted(set(rs["required"]) - bound), None))
+        if groups and ent_r == ent_s:
+            # the same inputs WITHOUT naming an entry point: accepted when InputSpec.tla's Accepts says so (exactly one
+            # way to enter every cycle); and with the seed of one whole cycle left out: rejected before anything runs
+            given0 = set(rs["required"])
+            for grp in groups:
+                given0 |= set(entries[minimal(grp)])
+            jid = len(accept_jobs) + 1
+            accept_jobs.append({"id": jid, "prog": prog, "select": sel, "given": sorted(given0 - bound), "entrypoint": IR.NONE})
+            plan.append((jid, i, sorted(given0 - bound), None, "accept-implicit"))
+            for grp in groups:
+                seeds = set().union(*[set(entries[n]) for n in grp])
+                g2 = sorted((given0 - seeds) - bound)
+                if any(set(entries[n]) <= (set(g2) | bound) for n in grp):
+                    continue          # some entry point of the cycle is still satisfied
+                members = cycle_members(prog, grp[0])
+                touched = {x for n in prog["nodes"] if n["name"] in members for x in n["inputs"] + n["outputs"]}
+                if touched & bound:
+                    continue          # a bound value inside the cycle bootstraps it (or bypasses its producer: the open C08 finding)
+                jid = len(accept_jobs) + 1
+                accept_jobs.append({"id": jid, "prog": prog, "select": sel, "given": g2, "entrypoint": IR.NONE})
+                plan.append((jid, i, g2, None, "omit-seed:" + "+".join(sorted(grp))))
         for given, e in picks:
             jid = len(accept_jobs) + 1
             accept_jobs.append({"id": jid, "prog": prog, "select": sel, "given": given, "entrypoint": e or IR.NONE})
@@ -259,6 +319,19 @@ def run(tier, seed):
         outs = {x for n in prog["nodes"] for x in n["outputs"]}
         bound_out = [b for b, _ in prog["bound"] if b in outs]
         mix = "Cannot mix compute and inject" in o.get("msg", "") and bound_out
+        if what == "accept-implicit":
+            if model_accepts and o["outcome"] != "accepted":
+                ctx.violation("cycle-entry-not-accepted", wit, f"one entry point per cycle supplied (none named) but rejected: {o.get('exc')}: {o.get('msg', '')[:160]}")
+            continue
+        if what.startswith("omit-seed:"):
+            n_rej += 1
+            if o["outcome"] == "accepted":
+                ctx.violation("missing-cycle-seed-accepted", wit, f"{what}: no entry point of that cycle is supplied, yet the run was accepted (status {o.get('status')}, {o['calls']} node invocations)")
+            elif not o.get("missing_error"):
+                ctx.violation("missing-input-wrong-exception", wit, f"{what}: {o.get('exc')}: {o.get('msg', '')[:120]}")
+            elif o["calls"] or o["events"] or o["shutdowns"]:
+                ctx.violation("rejected-call-had-effects", wit, f"{what}: effects before rejection")
+            continue
         if what == "accept":
             n_acc += 1
             if o["outcome"] != "accepted":
@@ -273,6 +346,23 @@ def run(tier, seed):
                 ctx.violation("accepted-but-value-missing", wit, f"run failed for lack of a value: {o['err']}")
             elif not model_accepts:
                 ctx.divergence("accepted by the implementation, not by InputSpec.tla", {"given": given})
+            narrowed = sel != IR.UNSET or prog["selected"] != IR.UNSET
+            if (o["outcome"] == "accepted" and o.get("status") == "completed" and narrowed and e is None
+                    and all(n["kind"] == "func" for n in prog["nodes"]) and not prog["entry"]):
+                # soundness of select narrowing (gate-free acyclic programs): the selected outputs cannot depend on an input
+                # the narrowed contract does not list -- supplying EVERY free parameter of the program must not change them
+                listed = set(reported[i]["required"]) | set(reported[i]["optional"])
+                free = sorted({p for n in prog["nodes"] for p in n["inputs"]} - {x for n in prog["nodes"] for x in n["outputs"]}
+                              - {b for b, _ in prog["bound"]} - listed)
+                if not free:
+                    continue
+                o2 = real_run(prog, sorted(set(given) | set(free)), mode, sel)
+                ctx.count()
+                ctx.traces()
+                ctx.bump("narrowing_soundness_cases")
+                if o2["outcome"] == "accepted" and o2.get("status") == "completed" and o2["values"] != o["values"]:
+                    ctx.violation("selected-output-depends-on-unlisted-input", dict(wit, all_inputs=free, observed_all=o2),
+                                  f"with the listed inputs {given}: {o['values']}; with the unlisted parameters {free} supplied as well: {o2['values']}")
         else:
             n_rej += 1
             if o["outcome"] == "accepted":
@@ -293,7 +383,7 @@ def run(tier, seed):
                 "entry": mid[0]["entry"], "run_select": mid[1], "specified": res[len(cfgs) // 2 + 1]})
     ctx.assumptions += ["InputSpec.tla is written from docs/06-api-reference/inputspec.md; TLC checks its laws (disjoint categories, bind moves required->optional, unbind restores, canonical input set accepted, each single omission rejected) on every configuration",
                         "acceptance of an entry point e of a cycle with several entry points is tested with the documented entrypoint=e argument"]
-    return ctx.finish(rule="seeded random DAG / gated / cyclic / nested programs x bind (1-2 names) x graph-level select x with_entrypoint x run-time select; per configuration: reported spec vs InputSpec.tla, bind/unbind on the real object, acceptance of required + one entry point per cycle, rejection (MissingInputError, no call, no event, no shutdown) of each single omitted required input; distinct = structural hash of (program, select)")
+    return ctx.finish(rule="seeded random DAG / gated / cyclic / nested programs x bind (1-2 names) x graph-level select x with_entrypoint x run-time select; per configuration: reported spec vs InputSpec.tla, bind/unbind on the real object, acceptance of required + one entry point per cycle (named, and unnamed where InputSpec.tla's Accepts holds), rejection of a run that leaves the seed of one whole cycle out, rejection (MissingInputError, no call, no event, no shutdown) of each single omitted required input; under a selection (gate-free acyclic programs, emit/wait_for included) the selected values with the listed inputs equal those with every free parameter supplied; distinct = structural hash of (program, select)")
 
 
 def specs_entry_all(prog):
